@@ -18,7 +18,7 @@ CONSTANTS Circuits,     \* set of circuit names
           Emit
 
 Backends == {"groth16", "plonk"}
-Hashes == {"default", "sha256"}
+Hashes == {"default", "sha256", "sha512"}     \* "sha512": a digest wider than a field element
 Witnesses == {"valid", "valid2", "badpublic", "badsecret"}
 
 VARIABLES cfg, done
@@ -33,6 +33,7 @@ Configs ==
 
 \* options that do not exist for a backend are kept at their default to avoid duplicate configurations
 Relevant(c) ==
+  /\ c.pChal # "sha512" /\ c.vChal # "sha512" /\ c.pFold # "sha512" /\ c.vFold # "sha512"   \* the wide digest matters for hash-to-field only
   /\ (c.backend = "groth16" => c.pChal = "default" /\ c.vChal = "default" /\ c.pFold = "default" /\ c.vFold = "default" /\ ~c.statZK)
   \* one option family is varied at a time (pairwise interactions are covered by the seeded sample in the thorough tier)
   /\ LET varied == (IF c.pHtf # "default" \/ c.vHtf # "default" THEN 1 ELSE 0)
